@@ -31,6 +31,8 @@ pub use crate::{
     },
     vm::{CallArgs, KotoVm, KotoVmSettings, ModuleImportedCallback, ReturnOrYield},
 };
+#[cfg(koto_verif)]
+pub use crate::vm::verif_timeout_probe;
 pub use koto_derive as derive;
 pub use koto_memory::{Borrow, BorrowMut, KCell, Ptr, PtrMut, lazy, make_ptr, make_ptr_mut};
 
